@@ -1,13 +1,20 @@
 #!/bin/bash
-# seeded_regress.sh: run every seeded change (and the own sensitivity set) against the checks that are
-# recorded to catch it; prints one line per (change, property). Needs ~25 min on 16 cores.
+# seeded_regress.sh [prefixes...]: run every seeded change (and the own sensitivity set) against the checks that are
+# recorded to catch it; prints one line per (change, property). Needs a few hours on 16 cores; arguments restrict it to
+# ids with one of the given prefixes (e.g. "C05 C07").
 cd "$(dirname "$0")"
+want() { [ $# -eq 0 ] && return 0; for p in "${PFX[@]}"; do case "$1" in $p*) return 0;; esac; done; return 1; }
+PFX=("$@")
+sel() { [ ${#PFX[@]} -eq 0 ] && return 0; for p in "${PFX[@]}"; do case "$1" in $p*) return 0;; esac; done; return 1; }
 for d in seeded/*/; do
   id=$(basename $d)
+  sel "$id" || continue
   props=$(python3 -c "import json;m=json.load(open('$d/meta.json'));print(' '.join(p for p,v in m['caught_by'].items() if not v.startswith('MISSED')))")
-  for p in $props; do echo "$id $(./mutrun.sh $d/patch.diff $p 2>&1 | tail -1 | cut -c1-160)"; done
+  [ -z "$props" ] && props=${id:0:3}
+  for p in $props; do echo "$id $p $(./mutrun.sh $d/patch.diff $p 2>&1 | tail -1 | cut -c1-160)"; done
 done
 for f in sensitivity/*.diff; do
   n=$(basename $f .diff); p=$(echo $n | cut -c1-3 | tr c C)
+  sel "$p" || continue
   echo "$n $(./mutrun.sh $f $p 2>&1 | tail -1 | cut -c1-160)"
 done
